@@ -107,7 +107,48 @@ func (i *interpreter) newMapIter(m *amap) iter {
 		it.keys = append([]value{}, m.keys...)
 		it.vals = append([]value{}, m.vals...)
 	}
+	if len(it.keys) > 1 && i.recordRangers && len(i.curFn) > 0 {
+		fn := i.curFn[len(i.curFn)-1]
+		for fn.Parent() != nil {
+			fn = fn.Parent()
+		}
+		name := fn.Name()
+		seen := false
+		for _, r := range i.mapRangers {
+			if r == name {
+				seen = true
+			}
+		}
+		if !seen && !i.writerIsHarness() {
+			i.mapRangers = append(i.mapRangers, name)
+		}
+	}
 	it.sym = i.mapOrder && len(it.keys) > 1 && i.mapOrderApplies()
+	if it.sym && len(it.keys) > 3 {
+		// large maps: not all n! orders but one of three transformations chosen once
+		// per path (reversal flips every pair, rotations change the first element)
+		it.sym = false
+		if i.bigOrder < 0 {
+			i.bigOrder = i.choose(3, "maporder-large")
+		}
+		n := len(it.keys)
+		perm := make([]int, n)
+		for k := range perm {
+			switch i.bigOrder {
+			case 0:
+				perm[k] = n - 1 - k
+			case 1:
+				perm[k] = (k + 1) % n
+			default:
+				perm[k] = (k + n/2) % n
+			}
+		}
+		nk, nv := make([]value, n), make([]value, n)
+		for k, p := range perm {
+			nk[k], nv[k] = it.keys[p], it.vals[p]
+		}
+		it.keys, it.vals = nk, nv
+	}
 	return it
 }
 
